@@ -197,8 +197,39 @@ def consistent_cigar(rng, rl, ql):
     return "".join(ops)
 
 
+def gen_gfa1_only_ops(rng):
+    """GFA1 links/containments whose overlaps use operations GFA2 alignments do not have
+    (=, X, N, S, H): the record has no exact GFA2 counterpart."""
+    n = rng.randint(2, 4)
+    names = rng.sample(["a", "b", "c", "d", "s1"], n)
+    lines = ["S\t%s\t*\tLN:i:%d" % (s, rng.randint(20, 40)) for s in names]
+    k = 0
+    for _ in range(rng.randint(1, 4)):
+        f, t = rng.sample(names, 2) if rng.random() < 0.8 else (names[0], names[0])
+        ops = "MID" + rng.choice(["=", "X", "N", "S", "H", "=X"])
+        c = G.cigar1(rng, nops=rng.randint(1, 4), ops=ops, maxlen=4)
+        if not any(ch in c for ch in "=XNSH"):
+            c += "2" + rng.choice("=XNSH")
+        if not (0 < CV.ref_len(c) < 20 and 0 < CV.query_len(c) < 20):
+            continue
+        k += 1
+        tags = ["ID:Z:x%d" % k] if rng.random() < 0.5 else []
+        if rng.random() < 0.75:
+            lines.append("\t".join(["L", f, rng.choice("+-"), t, rng.choice("+-"), c] + tags))
+        elif f != t:
+            lines.append("\t".join(["C", f, "+", t, rng.choice("+-"), "0", c] + tags))
+    if rng.random() < 0.4:
+        lines.append("L\t%s\t+\t%s\t-\t3M1I" % (names[0], names[-1]))
+    return lines
+
+
 def cases(rng, tier, shard, nshards):
     while True:
+        if rng.random() < 0.08:
+            l = gen_gfa1_only_ops(rng)
+            if any(x[0] in "LC" and any(ch in x.split("\t")[5 if x[0] == "L" else 6] for ch in "=XNSH") for x in l):
+                yield {"version": "gfa1", "k": "gfa1-only-ops", "lines": l, "vlevel": rng.choice([0, 1, 2, 3])}
+            continue
         if rng.random() < 0.6:
             yield {"version": "gfa1", "lines": gen_gfa1(rng), "vlevel": rng.choice([1, 2, 3]),
                    "cli": rng.random() < 0.01}
@@ -213,7 +244,59 @@ def tags_without(rec, drop):
     return frozenset(S.canon_tag(*t) for t in rec.tags if t[0] not in drop)
 
 
+def run_gfa1_only_ops(case, ctx):
+    """an alignment with GFA1-only operations has no GFA2 counterpart: the conversion refuses
+    (gfapy.Error), drops the record, or emits valid GFA2 -- never text which is not GFA2."""
+    lines, vlevel = case["lines"], case["vlevel"]
+    r = build(ctx, lines, "gfa1", vlevel)
+    if not r.ok:
+        ctx.violation("valid-document-refused/%s" % r.cls(), "%r: %s" % (lines, str(r.exc)[:200]), prop="C01")
+        return
+    g = r.value
+    ctx.nontriv(lines)
+    ways = [("Gfa.to_gfa2_s", g.to_gfa2_s)]
+    for l in g.lines:
+        if l.record_type in ("L", "C"):
+            ways.append(("Line.to_gfa2_s", l.to_gfa2_s))
+            ways.append(("Line.to_gfa2", lambda l=l: str(l.to_gfa2())))
+    for what, fn in ways:
+        c = call(ctx, what, fn)
+        ctx.count("gfa1_only_alignment_conversions")
+        if not c.ok:
+            ctx.count("gfa1_only_alignment_refused")
+            continue
+        out = S.split_doc(c.value)
+        for l in out:
+            if l.startswith("E\t"):
+                v = D.recognise_doc([x for x in out if x.startswith("S\t")] + [l], "gfa2") if what.startswith("Gfa") \
+                    else S.recognise_line(l, "gfa2")
+                if v[0] == S.INVALID:
+                    ctx.violation("converted-text-invalid/gfa1-only-alignment/%s" % what.split(".")[0],
+                                  "%s of %r gives %r (%s)" % (what, lines, l, v[1]))
+                    return
+    if case.get("cli") or hash(repr(lines)) % 40 == 0:
+        root = os.environ.get("GFAPY_ROOT", "/repo")
+        fn = os.path.join(_tmp, "cli1.gfa")
+        with open(fn, "w") as f:
+            f.write("\n".join(lines) + "\n")
+        try:
+            p = subprocess.run([sys.executable, "-B", os.path.join(root, "bin", "gfapy-convert"), fn],
+                               capture_output=True, text=True, timeout=120)
+        except subprocess.TimeoutExpired:
+            ctx.inconc("gfapy-convert watchdog")
+            return
+        ctx.count("cli_runs")
+        if p.returncode == 0:
+            for l in S.split_doc(p.stdout):
+                if l.startswith("E\t") and S.recognise_line(l, "gfa2")[0] == S.INVALID:
+                    ctx.violation("converted-text-invalid/gfa1-only-alignment/cli", "gfapy-convert of %r prints %r" % (lines, l))
+                    return
+    ctx.sample({"version": "gfa1", "lines": lines, "kind": "gfa1-only-ops"})
+
+
 def run(case, ctx):
+    if case.get("k") == "gfa1-only-ops":
+        return run_gfa1_only_ops(case, ctx)
     if case["version"] == "gfa1":
         return run_1to2(case, ctx)
     return run_2to1(case, ctx)
